@@ -20,7 +20,7 @@ use crate::{
     ensure,
 };
 
-const RULE: &str = "a case = sequential prefill of {0,1,62,63,64,127,128} values, then 1-3 pushers (1-3 uniquely tagged values each), 0-2 snapshot readers (data / data_with / is_empty) and 0-2 clearers (clear_with / clear), interleaved by a generated schedule over every bucket hook site, followed by a quiescent clear_with; element type u64 or a drop-counting struct with a self-check word. Non-trivial = a clear or snapshot step lies between the first and last step of some push, or a block hand-over (tail CAS) happens in the concurrent phase. Distinct = distinct (decoded case, schedule bytes). In 3/4 of the cases the recorded known window (tail loaded -> slot claimed) is fused shut; the rest run with it open and classify failures by the trace.";
+const RULE: &str = "a case = sequential prefill of {0,1,62,63,64,127,128} values (or, in about 4% of the cases, 2117 values = 33 blocks so that a clear releases a full batch of blocks while readers walk them), then 1-3 pushers (1-3 uniquely tagged values each), 0-2 snapshot readers (data / data_with / is_empty) and 0-2 clearers (clear_with / clear), interleaved by a generated schedule over every bucket hook site, followed by a quiescent clear_with; element type u64 or a drop-counting struct with a self-check word. Non-trivial = a clear or snapshot step lies between the first and last step of some push, or a block hand-over (tail CAS) happens in the concurrent phase. Distinct = distinct (decoded case, schedule bytes). In 3/4 of the cases the recorded known window (tail loaded -> slot claimed) is fused shut; the rest run with it open and classify failures by the trace.";
 
 // ---- drop accounting without pointers inside the elements (a torn/uninitialised read must not crash the harness)
 const CHUNK: usize = 1 << 20;
@@ -112,6 +112,10 @@ impl Elem for Tracked {
     }
     fn id(&self) -> Option<u32> {
         if self.check == !(self.id as u64) && (1..=3).contains(&self.kind) {
+            // an original whose destructor already ran is being read after it was released
+            if self.kind == 1 && slot_cell(self.slot).load(Ordering::Acquire) > 0 {
+                return None;
+            }
             Some(self.id)
         } else {
             None
@@ -149,10 +153,12 @@ struct Case {
 }
 
 const PREFILL: [usize; 7] = [0, 1, 62, 63, 64, 127, 128];
+/// more than DEFERRED_BLOCK_BATCH_SIZE (32) blocks, so that one clear releases a full batch
+const BIG_PREFILL: usize = 33 * 64 + 5;
 
 fn decode(src: &mut Source) -> Case {
     let elem = if src.bool() { "Tracked" } else { "u64" };
-    let prefill = *src.pick(&PREFILL);
+    let prefill = if src.chance(10) { BIG_PREFILL } else { *src.pick(&PREFILL) };
     let np = 1 + src.below(3);
     let pushers = (0..np).map(|_| 1 + src.below(3)).collect();
     let nr = src.below(3);
@@ -199,7 +205,7 @@ fn execute<T: Elem>(case: &Case, sched_bytes: &[u8], explicit: Option<Vec<(u64, 
         let id = next_id;
         next_id += 1;
         log.lock().unwrap().push(Ev::PushStart(id));
-        bucket.push(T::make(id, false));
+        bucket.push(T::make(id, case.prefill == BIG_PREFILL));
         log.lock().unwrap().push(Ev::PushEnd(id));
     }
     let tracked_slots: Mutex<Vec<(u32, u64)>> = Mutex::new(Vec::new());
@@ -351,7 +357,7 @@ fn oracle(case: &Case, run: &RunOut, ctx: &mut Ctx) -> Result<(), Fail> {
                             let mut last_of: HashMap<usize, u32> = HashMap::new();
                             for v in b {
                                 let Some(id) = v else {
-                                    return Err(Fail::new("clear-read-garbage", format!("a clearing read was handed bits that are not a pushed value (torn or unwritten slot); case {:?}", case)));
+                                    return Err(Fail::new("clear-read-garbage", format!("a clearing read was handed bits that are not a pushed value (torn, unwritten or already destroyed slot); case {:?}", case)));
                                 };
                                 ensure!(push_start.get(id).map(|p| *p < i).unwrap_or(false), "clear-fabricated-value", "clear handed out id {} that no push had started supplying", id);
                                 ensure!(set.insert(*id), "clear-duplicate-within-one-clear", "id {} appears twice in one clearing read", id);
